@@ -38,7 +38,7 @@ type runOut struct {
 	WallMs  int64    `json:"wall_ms"`
 }
 
-func runOne(sc Scenario) runOut {
+func runOne(sc Scenario, limitFactor int) runOut {
 	out := runOut{Sc: sc}
 	exe, err := os.Executable()
 	if err != nil {
@@ -50,6 +50,8 @@ func runOne(sc Scenario) runOut {
 	if limit > 120*time.Second && sc.Kind != "evict" {
 		limit = 120 * time.Second
 	}
+	limit += 60 * time.Second // the child's own waits are counted in effective time and may stretch on a loaded machine
+	limit *= time.Duration(limitFactor)
 	ctx, cancel := context.WithTimeout(context.Background(), limit)
 	defer cancel()
 	cmd := exec.CommandContext(ctx, exe, "--child", string(js))
@@ -81,6 +83,18 @@ func runOne(sc Scenario) runOut {
 		out.Res.Err = "child output: " + err.Error()
 	}
 	return out
+}
+
+// confirmable: verdicts read off goroutine/socket counts, log events and replies after a wait, or a child that did not
+// finish: a starved machine can produce them, so they need the confirmation run.  Not confirmable (evidence by
+// themselves): a quiescent relay waiting for the NAT timer (F9 class), a panic.
+func confirmable(key string) bool {
+	for _, p := range []string{"goroutine-leak", "socket-leak", "not-evicted", "never-evicted", "no-restart-after-eviction", "session-not-working", "wedged", "stop-not-returning"} {
+		if strings.HasPrefix(key, p) {
+			return true
+		}
+	}
+	return false
 }
 
 func variantOf(sc Scenario) string {
@@ -133,8 +147,8 @@ func oracle(o runOut) (fs []failure) {
 		if sc.Kind == "stop-flood" {
 			key = f9Key
 		}
-		fs = append(fs, failure{key, fmt.Sprintf("%s natTimeout=%dms: Stop had not returned %d ms after only in-flight work was left and the relay was quiescent; it returned=%v after %d ms; relay goroutines then: %s",
-			tag, sc.NatMs, watchMs(sc), r.StopReturned, r.StopMs, r.WaitDump)})
+		fs = append(fs, failure{key, fmt.Sprintf("%s natTimeout=%dms: Stop had not returned %d ms after only in-flight work was left and the relay was quiescent; it returned=%v after %d ms of effective time (%d ms of measured scheduling stall subtracted); relay goroutines then: %s",
+			tag, sc.NatMs, watchMs(sc), r.StopReturned, r.StopMs, r.StallMs, r.WaitDump)})
 	} else if !r.StopReturned {
 		fs = append(fs, failure{"stop-not-returning:" + sc.Kind, fmt.Sprintf("%s natTimeout=%dms: Stop has not returned after %d ms, relay goroutines still busy: %s", tag, sc.NatMs, r.StopMs, r.WaitDump)})
 	}
@@ -182,7 +196,7 @@ func oracle(o runOut) (fs []failure) {
 				fs = append(fs, failure{"socket-leak:after-eviction:unpackable", fmt.Sprintf("%s: %d sockets with no session, %d after eviction", tag, r.FRun+nc, r.FAfterEvict)})
 			}
 			if !r.ReplyAfter || r.StartedAfter < 2*nc {
-				fs = append(fs, failure{"no-restart-after-eviction:unpackable", fmt.Sprintf("%s: a normal packet after the eviction did not round-trip through a fresh session (reply=%v, sessions started=%d)", tag, r.ReplyAfter, r.StartedAfter)})
+				fs = append(fs, failure{"no-restart-after-eviction:unpackable", fmt.Sprintf("%s: a normal packet after the eviction did not round-trip through a fresh session (reply=%v, sessions started=%d); events: %s", tag, r.ReplyAfter, r.StartedAfter, strings.Join(r.Events, " | "))})
 			}
 		}
 	case "init-fail":
@@ -282,7 +296,7 @@ func (e *engine) modelAllowed(sc Scenario) (string, error) {
 	return a, nil
 }
 
-func (e *engine) evaluate(o runOut) error {
+func (e *engine) evaluate(o runOut, fails []failure) error {
 	e.mu.Lock()
 	defer e.mu.Unlock()
 	sc, rep := o.Sc, e.rep
@@ -317,7 +331,7 @@ func (e *engine) evaluate(o runOut) error {
 		rep.Count("harness-error")
 		return nil
 	}
-	for _, f := range oracle(o) {
+	for _, f := range fails {
 		rep.Fail(common.OracleFailure{Engine: "udplife", Key: f.key, Case: sc, Detail: f.detail})
 	}
 	if sc.Kind == "stop-flood" && sc.Batch == "no" && sc.Server != "ss2022" {
@@ -478,17 +492,81 @@ func main() {
 		sem := make(chan struct{}, par)
 		var wg sync.WaitGroup
 		var emu sync.Mutex
+		var excl sync.RWMutex
 		for _, sc := range scs {
 			wg.Add(1)
 			sem <- struct{}{}
 			go func(sc Scenario) {
 				defer wg.Done()
 				defer func() { <-sem }()
-				out := runOne(sc)
-				if (out.Crash == "" && out.Res.Err != "") || out.Timeout {
-					out = runOne(sc) // harness-level hiccup (or a child starved by the machine): once more; a real wedge persists
+				// first run: in parallel with up to par-1 other runs
+				excl.RLock()
+				out := runOne(sc, 1)
+				excl.RUnlock()
+				fails := oracle(out)
+				// A verdict that can be produced by a starved machine (leak / eviction / restart counts, a wedged or
+				// failed child) counts only if a second run of the same case, ALONE on the harness (nothing else in
+				// parallel, doubled wall limit), shows it again.  Stop-latency verdicts (quiescent relay waiting for the
+				// NAT timer) and panics are evidence by themselves.
+				for attempt := 0; attempt < 2; attempt++ {
+					need := out.Timeout || (out.Crash == "" && out.Res.Err != "")
+					var keep []failure
+					pending := map[string]bool{}
+					for _, f := range fails {
+						if confirmable(f.key) {
+							pending[f.key] = true
+						} else {
+							keep = append(keep, f)
+						}
+					}
+					if !need && len(pending) == 0 {
+						break
+					}
+					excl.Lock()
+					out2 := runOne(sc, 2)
+					excl.Unlock()
+					fails2 := oracle(out2)
+					e.mu.Lock()
+					for k := range pending {
+						e.rep.Count("rerun-alone:" + strings.SplitN(k, ":", 2)[0])
+					}
+					if need {
+						e.rep.Count("rerun-alone:child-timeout-or-error")
+					}
+					e.mu.Unlock()
+					if out.Timeout && out2.Timeout {
+						out, fails = out2, fails2 // wedged twice, the second time alone with a doubled limit
+						break
+					}
+					if need {
+						out, fails = out2, fails2 // the second run is the run; its own count verdicts need confirmation again
+						continue
+					}
+					// confirmed = shown again by the run alone
+					confirmed := keep
+					for _, f := range fails2 {
+						if pending[f.key] {
+							f.detail += " [confirmed by a second run of the same case alone]"
+							confirmed = append(confirmed, f)
+						} else if !confirmable(f.key) {
+							confirmed = append(confirmed, f)
+						}
+					}
+					for k := range pending {
+						found := false
+						for _, f := range fails2 {
+							found = found || f.key == k
+						}
+						if !found {
+							e.mu.Lock()
+							e.rep.Count("unconfirmed:" + k)
+							e.mu.Unlock()
+						}
+					}
+					out, fails = out2, confirmed
+					break
 				}
-				if er := e.evaluate(out); er != nil {
+				if er := e.evaluate(out, fails); er != nil {
 					emu.Lock()
 					err = er
 					emu.Unlock()
